@@ -162,7 +162,10 @@ Build(D, H, fs, v) ==               \* 2. intermediate nodes bottom-up
            H2 == FieldSet(D, H1, fs[Len(fs)], id, v)
        IN Build(D, H2, SubSeq(fs, 1, Len(fs)-1), Sub(id))
 
-NegIdx(fs) == \E j \in 1..Len(fs) : fs[j].t = "i" /\ fs[j].i < 0
+\* an index step must lie in 0..MaxIdx (the default of the MaxIdx option): a negative or huge idx ARGUMENT of a setter
+\* is an index error, never a list of that length ("SetIdxUnbounded": repaired)
+DefaultMaxIdx == 1024
+NegIdx(fs) == \E j \in 1..Len(fs) : fs[j].t = "i" /\ (fs[j].i < 0 \/ fs[j].i > DefaultMaxIdx)
 SetValue(D, H, root, fs, v) ==
   LET w == SetWalk(D, H, fs, Sub(root)) IN
   IF IsErr(w) THEN [H |-> H, err |-> w.err]
@@ -251,7 +254,8 @@ StoreAt(H, to, pos, v) ==
 RECURSIVE MergeNodes(_,_,_,_,_), MergeKeys(_,_,_,_,_,_), MergeIdx(_,_,_,_,_,_)
 \* mergeValues + `to.fields.set(k, merged.cpy(ctx))`
 MergeOne(D, H, to, pos, old, v, pol) ==
-  IF old = None \/ ~HToCfgOk(old) \/ ~HToCfgOk(v) THEN
+  \* (two nils are no containers: the new nil replaces the old one - "NilNilBecomesObject", repaired)
+  IF old = None \/ ~HToCfgOk(old) \/ ~HToCfgOk(v) \/ (old.k = "nil" /\ v.k = "nil") THEN
        LET c  == CopyVal(D, H, v, to, FldStr(pos))
            H1 == IF old = None THEN c.H ELSE Detach(D, c.H, old, c.v)
        IN StoreAt(H1, to, pos, c.v)
